@@ -55,6 +55,29 @@ CHECKS = {
             "Trusted: TLC, the snapshotting harness, the operation table (operations not listed in vf/api_table.py are not checked). "
             "Programs run in resource-limited child processes; a hang or memory blow-up on an aliased input is reported as a violation.",
             "DESIGN.md section 5 C20, Appendix F"),
+    "C13": (MC, "TLC bounded models of layout/index maps, weight schemes, molecule box, closest point, cube line chunking and "
+                "polynomial calculus (Cubic.tla, MC_Cubic*.tla) + replay of TLC-emitted cases; TLC judges integer observables, harness "
+                "judges reals against spec-derived rationals and expression trees",
+            "TLC decides, for all shapes in {2..5}^2 u {2..5}^3 and all indices, that the stride loop and both index maps are inverse "
+            "bijections in lexicographic order (last index fastest) and that a transcription of the NumPy constructions reproduces the "
+            "point, tuple and product laws; the weight-sum bound for the rational schemes (shapes <= 12); enclosure of from_molecule's box "
+            "arithmetic on 3.4e4 rational templates; rint/floor nearest-node rules on axis-parallel grids incl. negative steps; "
+            "reader o writer = identity for all data lengths <= 130; the symbolic derivative of the test polynomials.  All enumerated cases "
+            "are replayed into Tensor1DGrids/UniformGrid (index maps, integer points, weights, boxes with rotate on/off, closest_point, "
+            "cube files in both unit conventions, cubic/linear/log interpolation with partial derivatives).",
+            "Trusted: TLC, expr_eval, float comparison tolerances calibrated in vf/props/c13.py (measured errors <= 1e-15 relative vs "
+            "thresholds >= 1e-12).  Not covered: method='nearest', closest_point on rotated axes, points outside the grid, save().",
+            "DESIGN.md section 5 C13"),
+    "C14": (MC, "TLC decides Horton orders and row-index arithmetic, checks the solid-harmonic formula and judges recorded order listings "
+                "and exact Cartesian moments (Moments.tla); harness compares radial/pure values with spec-derived trees",
+            "TLC checks for orders 0..8, all four moment types and Cartesian dimensions 1-3 that the loop nest enumerates the declarative "
+            "row set in Horton order and that the closed-form row indices are bijections; that the explicit regular solid harmonics are "
+            "harmonic, homogeneous and follow the documented sign convention (l <= 6); the dipole identity exactly.  The listings returned "
+            "by generate_orders_horton_order and Grid.moments(return_orders=True) and the Cartesian moments of (half-)integer point sets for "
+            "1-3 centres are judged exactly by TLC; radial, pure and pure-radial moments (l <= 6) and dipole_moment_of_molecule are "
+            "compared with 50-digit evaluations of the emitted trees.",
+            "Trusted: TLC, expr_eval/mpmath; tolerance 1e-10*scale (measured 1.7e-15*scale).",
+            "DESIGN.md section 5 C14"),
 }
 
 NOT_YET = {}
